@@ -306,16 +306,29 @@ def live_start(P):
             return cvars(c[1])
         return set()
 
+    def conj(c):
+        return conj(c[1]) | conj(c[2]) if c[0] == "and" else ({repr(c)} if c[0] != "true" else set())
+    flat = [s_ for s_ in P["body"] if s_[0] in ("assign", "draw")]
+    common = set.intersection(*[conj(s_[3]) for s_ in flat]) if flat and len(flat) == len(P["body"]) else set()
+
+    def keeps(s_):
+        """the default is read when the condition is false.  Keeping itself is no read if the condition is only what
+        every statement of the body carries (the loop guard): the frozen store is not a new value.  Under any further
+        condition the variable goes on holding its start value, which is then a value it takes."""
+        if s_[3] == ("true",):
+            return set()
+        if s_[4] != s_[1]:
+            return {s_[4]}
+        return {s_[4]} if conj(s_[3]) - common else set()
+
     def walk(stmts, assigned):
         for s_ in stmts:
             if s_[0] == "assign":
-                reads = set().union(*[pvars(e) for _, e in s_[2]]) | cvars(s_[3])
-                if s_[3] != ("true",) and s_[4] != s_[1]:
-                    reads.add(s_[4])      # the default is read when the condition is false (keeping itself is no read)
+                reads = set().union(*[pvars(e) for _, e in s_[2]]) | cvars(s_[3]) | keeps(s_)
                 live.update(reads - assigned)
                 assigned = assigned | {s_[1]}
             elif s_[0] == "draw":
-                reads = cvars(s_[3]) | ({s_[4]} if s_[3] != ("true",) and s_[4] != s_[1] else set())
+                reads = cvars(s_[3]) | keeps(s_)
                 live.update(reads - assigned)
                 assigned = assigned | {s_[1]}
             elif s_[0] == "simul":
@@ -464,15 +477,16 @@ def b_stats(ctx):
         poly = absyn.mono_of(g)
         if any(v not in P["vars"] for v, _ in poly[0][1]):
             continue
-        for kind, key in (("central", "centrals"), ("cumulant", "cumulants")):
+        for kind, key in (("central", "centrals"), ("cumulant", "cumulants"), ("cumulant", "cumulants_at_n")):
             if key not in co:
-                ctx.note("stats_exception")
+                if key != "cumulants_at_n":
+                    ctx.note("stats_exception")
                 continue
             for k, vals in co[key].items():
                 for n, val in enumerate(vals[ctx.pi][:ctx.N + 1]):
                     if "q" in val:
                         ctx.claim(n, {"t": kind, "pi": ctx.src, "poly": poly, "k": int(k), "val": F(val["q"]),
-                                      "tag": f"{kind}{k}:{g}"})
+                                      "tag": f"{kind}{k}:{g}" + ("@at_n" if key == "cumulants_at_n" else "")})
                     else:
                         ctx.note("stats_" + next(iter(val)))
 
@@ -545,6 +559,26 @@ def fixed_templates():
                  ("if", [("atom", [(F(1), V("x"))], ">", [(F(1), V("y"))])], [[inc("a")]], []),
                  ("draw", "y", ("bernoulli", F(1, 3)), ("true",), "y"),
                  ("if", [("atom", [(F(1), V("x"))], ">", [(F(1), V("y"))])], [[inc("b")]], [])]}, ["a", "b", "a*b", "b*x"]))
+    # two different non-reduced atoms over a shared variable, the variable reassigned, both atoms tested again
+    def xy(op, c):
+        return ("atom", [(F(1), V("x")), (F(1), V("y"))], op, [(F(c), ONE)] if c else [])
+    T.append(("two_atoms_then_reuse", {
+        "vars": ["a", "b", "f", "g", "x", "y"], "s0": {}, "guard": ("true",),
+        "init": [asg("a", []), asg("b", []), asg("f", []), asg("g", []), asg("x", []), asg("y", [])],
+        "body": [("draw", "y", ("bernoulli", F(1, 2)), ("true",), "y"),
+                 ("if", [xy(">", 0)], [[inc("a")]], []),
+                 ("if", [xy(">", 1)], [[inc("b")]], []),
+                 ("draw", "x", ("bernoulli", F(1, 3)), ("true",), "x"),
+                 ("if", [xy(">", 1)], [[inc("f")]], []),
+                 ("if", [xy(">", 0)], [[inc("g")]], [])]}, ["f", "g", "a", "b", "f*g"]))
+    T.append(("two_orderings_then_reuse", {
+        "vars": ["a", "b", "f", "x", "y"], "s0": {}, "guard": ("true",),
+        "init": [asg("a", []), asg("b", []), asg("f", []), asg("x", [(F(1), ONE)]), asg("y", [])],
+        "body": [("draw", "y", ("duniform", 0, 2), ("true",), "y"),
+                 ("if", [("atom", [(F(1), V("x"))], ">=", [(F(1), V("y"))])], [[inc("a")]], []),
+                 ("if", [("atom", [(F(1), V("x"))], ">", [(F(1), V("y"))])], [[inc("b")]], []),
+                 ("draw", "x", ("duniform", 0, 2), ("true",), "x"),
+                 ("if", [("atom", [(F(1), V("x"))], ">", [(F(1), V("y"))])], [[inc("f")]], [])]}, ["f", "a", "b", "f*b"]))
     # a finitely valued variable whose two values lie in [0, 1] but are not 0 / 1; its square survives
     T.append(("fraction_valued_flag", {
         "vars": ["energy", "pos", "step"], "s0": {}, "guard": ("true",),
